@@ -572,6 +572,36 @@ rule("D6.opt_os_to_str",
      "shim_opt_os_to_str ( $recv )",
      "Option<&OsStr>::and_then(OsStr::to_str)")
 
+rule("D14.question_mark",
+     "$recv ?",
+     "( match $recv { Ok ( __v ) => __v , Err ( __e ) => return Err ( From :: from ( __e ) ) } )",
+     "`EXPR?` on a Result written out (its definition): Verus gives the built-in `?` no From specification when the error type is converted")
+
+rule("D5.entry_and_modify_push",
+     "$recv . entry ( $k:id ) . and_modify ( | $e:id | $e2:id . push ( & $v:id ) ) . or_insert ( $v2:id ) ;",
+     "match $recv . entry ( $k ) { std :: collections :: hash_map :: Entry :: Occupied ( mut __o ) => { __o . get_mut ( ) . push ( & $v ) ; } std :: collections :: hash_map :: Entry :: Vacant ( __v ) => { __v . insert ( $v2 ) ; } }",
+     "HashMap::entry(k).and_modify(|e| e.push(&v)).or_insert(v): the two Entry cases written out")
+
+rule("D6.str_lines",
+     "$recv . lines ( )",
+     "shim_lines ( $recv )",
+     "str::lines() collected into a Vec<&str>")
+
+rule("D6.splitn2_eq",
+     "$recv . splitn ( 2 , '=' ) . collect ( )",
+     "shim_splitn2_eq ( $recv )",
+     "str::splitn(2, '=').collect::<Vec<&str>>()")
+
+rule("D6.parse_i64_index",
+     "v [ 1 ] . parse :: < i64 > ( )",
+     "shim_parse_i64_full ( v [ 1 ] )",
+     "str::parse::<i64>() with optional sign")
+
+rule("D14.question_mark_parse",
+     "shim_parse_i64_full ( v [ 1 ] ) ?",
+     "( match shim_parse_i64_full ( v [ 1 ] ) { Ok ( __v ) => __v , Err ( __e ) => return Err ( From :: from ( __e ) ) } )",
+     "`EXPR?` with an error conversion written out (definition of `?`), for the two integer fields")
+
 rule("D6.take_digits",
      "$recv . chars ( ) . take_while ( char :: is_ascii_digit ) . collect ( )",
      "shim_take_ascii_digits ( $recv )",
